@@ -35,6 +35,7 @@ class STL(object):
         self.sx = executor_module
         self.side = []            # (description, path condition list, obligation term)
         self.check_bounds = True
+        self.map_like = set()     # user classes derived from std::map (e.g. cxxNameDouble : std::map<std::string, double>)
 
     # ---------------- helpers
     def vsize(self, ex, st, a):
@@ -53,7 +54,7 @@ class STL(object):
 
     def is_map(self, cls):
         c = cls.replace("const ", "").strip()
-        return c.startswith("std::map<")
+        return c.startswith("std::map<") or c in self.map_like
 
     def bound(self, ex, st, what, idx, size):
         if self.check_bounds:
